@@ -1020,7 +1020,7 @@ impl Transaction {
         // or consensus.
         //
         if self.transaction_type == TransactionType::SPV {
-            if self.total_fees > 0 {
+            if self.total_fees > 0 || !self.from.is_empty() || !self.to.is_empty() {
                 error!("ERROR: SPV transaction contains invalid hash");
                 return false;
             }
